@@ -10,6 +10,7 @@ import (
 	"sort"
 	"time"
 
+	"github.com/openbao/openbao/sdk/v2/logical"
 	"github.com/openbao/openbao/v2/internal/helper/namespace"
 	"github.com/openbao/openbao/v2/internal/vault/barrier"
 )
@@ -40,6 +41,18 @@ func (c *Core) VerifBarriers() map[string]barrier.SecurityBarrier {
 	return out
 }
 func (c *Core) VerifTokenStore() *TokenStore        { return c.tokenStore }
+
+// VerifCreateToken stores a token entry the way internal callers do (the OIDC provider mints
+// its access tokens with an INLINE policy this way; no API creates such a token directly).
+func (c *Core) VerifCreateToken(ctx context.Context, te *logical.TokenEntry) error {
+	if err := c.tokenStore.create(ctx, te, true); err != nil {
+		return err
+	}
+	// ... and its lease, as every minting path does (a token with a TTL and no lease is refused)
+	auth := &logical.Auth{ClientToken: te.ID, Accessor: te.Accessor, Policies: te.Policies, TokenType: logical.TokenTypeService,
+		LeaseOptions: logical.LeaseOptions{TTL: te.TTL, Renewable: false}}
+	return c.expiration.RegisterAuth(ctx, te, auth, "", true)
+}
 
 // VerifDisablePhysicalCache switches the read cache in front of the physical
 // backend off (what disable_cache does in a server configuration; the test
